@@ -300,7 +300,14 @@ func runHistories(c *vf.Ctx, path string, variants []variant, keys [][]byte, non
 		ct := aeadref.Encrypt(key, nonce, plainAll)
 		tagger := aeadref.NewTagger(aeadref.PolyKey(key, nonce), ad, ct)
 		// the other message
-		oNonce := nonces[va.nonce][(ci+1)%nClasses]
+		// its nonce differs from the message's nonce only in the last byte of each 8-byte group, so
+		// that anything remembered under part of a nonce is found again under the wrong one
+		oNonce := append([]byte(nil), nonce...)
+		for _, i := range []int{7, 15, len(oNonce) - 1} {
+			if i < len(oNonce) {
+				oNonce[i] ^= 0x01
+			}
+		}
 		oPt, oAD := ptC[(ci+2)%nClasses][:77], adC[(ci+1)%nClasses][:5]
 		oSealed := aeadref.Seal(key, oNonce, oPt, oAD)
 		hname := "fresh"
